@@ -80,107 +80,114 @@ impl Iterator for Parser {
     type Item = Result<Line>;
 
     fn next(&mut self) -> Option<Self::Item> {
-        // We must read the length before mutably borrowing from files
-        // below.
-        let depth = match self.files.len() {
-            // The value is actually never used when the length is 0. We
-            // do this simply to avoid "subtract with overflow" panics.
-            0 => 0,
-            n => n - 1,
-        };
+        // An `$INCLUDE` directive and the end of an included file both mean
+        // "look again"; we loop rather than recurse, so that a long run of
+        // includes that yield no records cannot exhaust the stack.
+        loop {
+            // We must read the length before mutably borrowing from files
+            // below.
+            let depth = match self.files.len() {
+                // The value is actually never used when the length is 0. We
+                // do this simply to avoid "subtract with overflow" panics.
+                0 => 0,
+                n => n - 1,
+            };
 
-        // Try to get the current file. If none, we've reached the end
-        // of the original file (or encountered an error and cleared the
-        // stack to end iteration).
-        let (path, _, parser) = match self.files.last_mut() {
-            Some(last) => last,
-            None => return None,
-        };
+            // Try to get the current file. If none, we've reached the end
+            // of the original file (or encountered an error and cleared the
+            // stack to end iteration).
+            let (path, _, parser) = match self.files.last_mut() {
+                Some(last) => last,
+                None => return None,
+            };
 
-        // Drive the current file's parser. If it has reached EOF, pop
-        // it from the stack and try this method again.
-        let next = match parser.next() {
-            Some(next) => next,
-            None => {
-                let (_, _, parser) = self.files.pop().unwrap();
-                if let Some((_, _, previous_parser)) = self.files.last_mut() {
-                    previous_parser.update_context_from_include(parser);
-                    return self.next();
-                } else {
-                    return None;
-                }
-            }
-        };
-
-        // The current file's parser gave us something. Let's hope it's
-        // a line and not an error!
-        let line = match next {
-            Ok(line) => line,
-            Err(err) => {
-                let path = Box::from(path.as_ref());
-                self.files.clear();
-                let kind = match err {
-                    super::error::Error::Io(io_err) => ErrorKind::GeneralIo(io_err),
-                    super::error::Error::Syntax(details) => ErrorKind::Syntax(details),
-                };
-                return Some(Err(Error { path, kind }));
-            }
-        };
-
-        // Great, it's a line! Process it as necessary.
-        match line.content {
-            LineContent::Record(record) => Some(Ok(Line {
-                path: path.clone(),
-                number: line.number,
-                record,
-            })),
-            LineContent::Include(include) => {
-                // Ensure that we don't exceed the depth limit.
-                if depth >= self.max_depth {
-                    let path = Box::from(path.as_ref());
-                    let chain = make_include_chain(&self.files, line.number);
-                    self.files.clear();
-                    return Some(Err(Error {
-                        path,
-                        kind: ErrorKind::IncludesTooDeep(IncludesTooDeep {
-                            line: line.number,
-                            chain,
-                        }),
-                    }));
-                }
-
-                // Open the included file.
-                let new_path = match compute_path(path, &include.path) {
-                    Some(p) => p,
-                    None => {
-                        let path = Box::from(path.as_ref());
-                        self.files.clear();
-                        return Some(Err(Error {
-                            path,
-                            kind: ErrorKind::InvalidPath(InvalidPath { line: line.number }),
-                        }));
+            // Drive the current file's parser. If it has reached EOF, pop
+            // it from the stack and try this method again.
+            let next = match parser.next() {
+                Some(next) => next,
+                None => {
+                    let (_, _, parser) = self.files.pop().unwrap();
+                    if let Some((_, _, previous_parser)) = self.files.last_mut() {
+                        previous_parser.update_context_from_include(parser);
+                        continue;
+                    } else {
+                        return None;
                     }
-                };
-                let file_handle = match File::open(&new_path) {
-                    Ok(f) => f,
-                    Err(io_err) => {
+                }
+            };
+
+            // The current file's parser gave us something. Let's hope it's
+            // a line and not an error!
+            let line = match next {
+                Ok(line) => line,
+                Err(err) => {
+                    let path = Box::from(path.as_ref());
+                    self.files.clear();
+                    let kind = match err {
+                        super::error::Error::Io(io_err) => ErrorKind::GeneralIo(io_err),
+                        super::error::Error::Syntax(details) => ErrorKind::Syntax(details),
+                    };
+                    return Some(Err(Error { path, kind }));
+                }
+            };
+
+            // Great, it's a line! Process it as necessary.
+            match line.content {
+                LineContent::Record(record) => {
+                    return Some(Ok(Line {
+                        path: path.clone(),
+                        number: line.number,
+                        record,
+                    }))
+                }
+                LineContent::Include(include) => {
+                    // Ensure that we don't exceed the depth limit.
+                    if depth >= self.max_depth {
                         let path = Box::from(path.as_ref());
+                        let chain = make_include_chain(&self.files, line.number);
                         self.files.clear();
                         return Some(Err(Error {
                             path,
-                            kind: ErrorKind::FailedToOpenInclude(FailedToOpenInclude {
+                            kind: ErrorKind::IncludesTooDeep(IncludesTooDeep {
                                 line: line.number,
-                                path: Box::from(new_path.as_ref()),
-                                io_err,
+                                chain,
                             }),
                         }));
                     }
-                };
 
-                // Create the new super::Parser and use it.
-                let new_parser = parser.new_for_include(file_handle, include.origin);
-                self.files.push((new_path, line.number, new_parser));
-                self.next()
+                    // Open the included file.
+                    let new_path = match compute_path(path, &include.path) {
+                        Some(p) => p,
+                        None => {
+                            let path = Box::from(path.as_ref());
+                            self.files.clear();
+                            return Some(Err(Error {
+                                path,
+                                kind: ErrorKind::InvalidPath(InvalidPath { line: line.number }),
+                            }));
+                        }
+                    };
+                    let file_handle = match File::open(&new_path) {
+                        Ok(f) => f,
+                        Err(io_err) => {
+                            let path = Box::from(path.as_ref());
+                            self.files.clear();
+                            return Some(Err(Error {
+                                path,
+                                kind: ErrorKind::FailedToOpenInclude(FailedToOpenInclude {
+                                    line: line.number,
+                                    path: Box::from(new_path.as_ref()),
+                                    io_err,
+                                }),
+                            }));
+                        }
+                    };
+
+                    // Create the new super::Parser and use it.
+                    let new_parser = parser.new_for_include(file_handle, include.origin);
+                    self.files.push((new_path, line.number, new_parser));
+                    continue;
+                }
             }
         }
     }
